@@ -126,6 +126,7 @@ type world struct {
 	deleteDepth    atomic.Int64
 	opStack        []*stackOp // ops executing on the driver goroutine, innermost last
 	helpers        sync.WaitGroup
+	deleteHelpers  sync.WaitGroup // helper writes launched inside a Delete's publication, joined before the driver's next op
 	log            []string
 }
 
@@ -542,11 +543,23 @@ func runScenario(t *rapid.T, s scenario) {
 						w.helpers.Add(1)
 						helperActive.Add(1)
 						done := make(chan struct{})
+						who := 9
+						if n := len(w.opStack); n > 0 && w.opStack[n-1].op.kind == "delete" && !w.isValue && strings.HasPrefix(point, "bus.send") && !lockedPoints[point] {
+							// launched from inside a Delete's publication. Delete publishes while it holds the write
+							// lock, so this write can only take effect once the Delete is over; the driver waits for it
+							// before it moves on, which makes it an ordinary later write: nothing it does can be blamed
+							// on the known publication window of Update/Set
+							who = 7
+							w.deleteHelpers.Add(1)
+						}
 						go func(op wop) {
 							defer w.helpers.Done()
 							defer close(done)
 							defer helperActive.Add(-1)
-							_ = w.write(op, 9)
+							if who == 7 {
+								defer w.deleteHelpers.Done()
+							}
+							_ = w.write(op, who)
 						}(in.w)
 						select {
 						case <-done:
@@ -581,6 +594,7 @@ func runScenario(t *rapid.T, s scenario) {
 				op := s.writers[wi][pos[wi]]
 				pos[wi]++
 				_ = w.write(op, 0)
+				w.deleteHelpers.Wait()
 			}
 			return
 		}
@@ -841,6 +855,61 @@ func TestForcedSubscribe(t *testing.T) {
 		t.Fatal("hooks are not compiled in (build with -tags verif)")
 	}
 	rapid.Check(t, func(t *rapid.T) { runScenario(t, genScenario(t, false)) })
+}
+
+// genDeleteWindowScenario: a Delete whose publication is interfered with - a complete write to the same id, or a
+// subscribe, launched at the publication's yield points. A Delete's commit and publication are one step (it publishes
+// while holding the write lock), so whatever is launched there takes effect afterwards and every view must end up with it.
+func genDeleteWindowScenario(t *rapid.T) scenario {
+	s := scenario{initial: map[string]int32{}}
+	ids := []string{"a", "b"}
+	for _, id := range ids {
+		if id == "a" || rapid.Bool().Draw(t, "init-"+id) {
+			s.initial[id] = 0
+		}
+	}
+	nsubs := rapid.IntRange(1, 3).Draw(t, "nsubs")
+	for i := 0; i < nsubs; i++ {
+		s.subs = append(s.subs, subSpec{
+			updatesOnly:  rapid.IntRange(0, 3).Draw(t, "updatesOnly") == 0,
+			backpressure: rapid.Bool().Draw(t, "backpressure"),
+			masked:       rapid.IntRange(0, 3).Draw(t, "masked") == 0,
+			when:         rapid.SampledFrom([]string{"before", "before", "inject"}).Draw(t, "when"),
+		})
+	}
+	val := int32(1)
+	var ws []wop
+	if rapid.Bool().Draw(t, "updateFirst") {
+		ws = append(ws, wop{kind: "update", id: "a", val: val})
+		val++
+	}
+	ws = append(ws, wop{kind: "delete", id: "a"})
+	for k := 0; k < rapid.IntRange(0, 2).Draw(t, "after"); k++ {
+		ws = append(ws, wop{kind: rapid.SampledFrom([]string{"update", "delete"}).Draw(t, "afterKind"), id: rapid.SampledFrom(ids).Draw(t, "afterID"), val: val})
+		val++
+	}
+	s.writers = [][]wop{ws}
+	for range ws {
+		s.order = append(s.order, 0)
+	}
+	points := []string{"bus.send.afterSnapshot", "bus.send.beforeListener"}
+	// which hit of the point falls into the Delete's publication depends on the listeners registered by then: drawn
+	for i, sp := range s.subs {
+		if sp.when == "inject" {
+			s.injs = append(s.injs, &inj{point: rapid.SampledFrom(points).Draw(t, "subPoint"), nth: rapid.IntRange(1, 4).Draw(t, "subNth"), action: "subscribe", sub: i})
+		}
+	}
+	s.injs = append(s.injs, &inj{point: rapid.SampledFrom(points).Draw(t, "wpoint"), nth: rapid.IntRange(1, 5).Draw(t, "wNth"), action: "write",
+		w: wop{kind: rapid.SampledFrom([]string{"update", "add"}).Draw(t, "wkind"), id: "a", val: val}})
+	return s
+}
+
+// TestForcedDeleteWindow: see genDeleteWindowScenario.
+func TestForcedDeleteWindow(t *testing.T) {
+	if !verifhook.Enabled {
+		t.Fatal("hooks are not compiled in (build with -tags verif)")
+	}
+	rapid.Check(t, func(t *rapid.T) { runScenario(t, genDeleteWindowScenario(t)) })
 }
 
 func TestStressSubscribe(t *testing.T) {
